@@ -65,6 +65,9 @@ type Prog struct {
 	units        map[*ssa.Function]map[*ssa.Function]bool
 	renamedKnown map[string]map[*ssa.Function]bool // per package: known functions found under a new name
 	fnCache      map[string]*ssa.Function
+	// Inlined: call sites of novel helpers that were expanded before the analysis (inline.go)
+	Inlined      []inlineNote
+	InlineFailed string
 }
 
 func loadEnv(cfg Config) []string {
@@ -93,12 +96,55 @@ func loadEnv(cfg Config) []string {
 
 // Load type-checks /repo, builds SSA for the whole program and the iterated VTA call graph.
 func Load(repo string, cfg Config) (*Prog, error) {
+	p, err := loadOnce(repo, cfg, nil)
+	if err != nil || cfg.Ctl || os.Getenv("CLOAKCHECK_NOINLINE") != "" {
+		return p, err
+	}
+	// normalisation: expand calls to helpers the frozen table does not know (inline.go) and analyse the expanded source
+	var overlay map[string][]byte
+	var notes []inlineNote
+	for round := 1; round <= 4; round++ {
+		ovDel, ovKeep, ns := planInline(p, overlay, round)
+		if ovDel == nil {
+			break
+		}
+		used := ovDel
+		p2, err2 := loadOnce(repo, cfg, ovDel)
+		if err2 != nil {
+			used = ovKeep
+			p2, err2 = loadOnce(repo, cfg, ovKeep)
+		}
+		if err2 != nil {
+			msg := err2.Error()
+			if i := strings.Index(msg, "\n  "); i >= 0 {
+				if j := strings.Index(msg[i+3:], "\n"); j >= 0 {
+					msg = msg[:i+3+j]
+				}
+			}
+			if os.Getenv("CLOAKCHECK_INLINE_DEBUG") != "" {
+				for f, b := range ovKeep {
+					os.WriteFile("/tmp/inline_debug_"+strings.ReplaceAll(strings.TrimPrefix(f, repo+"/"), "/", "_"), b, 0o644)
+				}
+			}
+			p.InlineFailed = "expanded source did not type-check, helpers are analysed as calls: " + msg
+			break
+		}
+		overlay, p = used, p2
+		notes = append(notes, ns...)
+	}
+	p.Inlined = notes
+	curProg = p
+	return p, nil
+}
+
+func loadOnce(repo string, cfg Config, overlay map[string][]byte) (*Prog, error) {
 	t0 := time.Now()
 	pc := &packages.Config{
-		Mode:  packages.LoadAllSyntax,
-		Dir:   repo,
-		Tests: false,
-		Env:   loadEnv(cfg),
+		Mode:    packages.LoadAllSyntax,
+		Dir:     repo,
+		Tests:   false,
+		Env:     loadEnv(cfg),
+		Overlay: overlay,
 	}
 	if cfg.Tags != "" {
 		pc.BuildFlags = []string{"-tags=" + cfg.Tags}
